@@ -366,7 +366,8 @@ impl error::EndOfInputError for IfCaseEndOfInputError {
             .into(),
             format![
                 "the input ended while skipping case {}",
-                self.total_cases_to_skip + 1 - self.cases_left_to_skip
+                // Subtract first: `total_cases_to_skip + 1` overflows for \ifcase 2147483647.
+                self.total_cases_to_skip - self.cases_left_to_skip + 1
             ]
             .into(),
         ]
